@@ -54,6 +54,12 @@ func planFor(id string) *Plan {
 
 var plans = []Plan{
 	{
+		ID: "C13", Level: "exploration",
+		Rule: "generated client registration (registered response-type combinations incl. reordered ones, grant types, response modes, public flag, request-object algorithm, JWKS, request_uris) x request (response_type multiset with reordering / duplicates / case / unknown members, response_mode incl. junk, state and nonce lengths around the threshold and with URL/HTML-special characters, scope with/without openid, redirect_uri present/absent, request object signed by registered / unregistered / another client's key, alg none, HS256, garbage, by value or by registered / unregistered request_uri); oracle: acceptance implies every stated condition (computed independently), request-object parameters are honoured only if verifiable, no access_token / id_token in any Location query, access tokens only with the implicit grant, a code never redeemable without the authorization_code grant, state echoed byte-identical. Non-trivial: exactly one rule unmet, or an accepted request with an explicit response mode, or a honoured request object; distinct by (type set, mode, lengths, flags, object kind, outcome).",
+		Jobs: []Job{{Test: "TestC13_AuthorizeValidation", Shards: [2]int{16, 16}, Checks: [2]int{600, 15000}, Timeout: [2]int{600, 3000}}},
+	},
+
+	{
 		ID: "C11", Level: "exploration",
 		Rule: "generated registration of 1-4 redirect URIs from a component grammar (https/http/custom/opaque schemes, names, IPv4/IPv6 loopback and non-loopback literals, localhost names, ports, paths, queries) x requested redirect_uri built from a registered one by 0-2 named near-miss edits (case, trailing slash, port, look-alike host, localhost swap, userinfo insertion/confusion, path append/dot-dot/case/percent-encoding, query add/reorder/drop, fragment, scheme swap, relative, empty, backslash, whitespace, IPv6/IPv4-mapped loopback) x response type x response mode x an error injected before (unknown client) or after (scope, state, response type/mode, audience, consent denied) redirect validation, also through PAR; oracle on the written bytes: the base of any Location / form action is string-identical to a registered URI or satisfies the loopback rule (netip), no fragment of its own, absolute; a request whose redirect_uri does not qualify per an independent component-level reference gets no redirect; codes never go to plain-http non-local targets. Non-trivial: requested URI differs from every registered string, or an error is injected after validation; distinct by (edits, type, mode, injected error, outcome).",
 		Jobs: []Job{{Test: "TestC11_RedirectTargets", Shards: [2]int{16, 16}, Checks: [2]int{600, 15000}, Timeout: [2]int{600, 3000}}},
